@@ -28,7 +28,7 @@ PROPERTY = "C13"
 FUNCTIONS = ["ApplicationHelp.render/_render_help", "CommandHelp.render/_render_help/_render_usage/_render_sub_command", "AbstractHelp._render_argument/_render_option/_render_synopsis",
              "LabeledParagraph.render", "Paragraph.render", "BlockLayout", "LabelAlignment", "HelpTextHandler.handle", "HelpResolver"]
 PART = {}
-BOUNDS = {"quick": "one application (3 top-level commands, one with 2 sub-commands, options on parent and child, 2 arguments); symbolic: hidden/disabled bits of 4 commands, description kind (none/short/long) of 4 elements, "
+BOUNDS = {"quick": "one application (3 top-level commands, one with 2 sub-commands, options on parent and child, 2 arguments); symbolic: hidden/disabled bits of 4 commands, description kind (none/short/long/with an unbreakable 70-character token) of 4 elements, free-text descriptions and help texts, "
                    "value mode and default of 2 options, multi-valued argument; terminal widths {40, 64, 120}; pages: application, parent command, sub-command; both help routes",
           "thorough": "10 widths in 40..200, 6 parent description/value-mode combinations, 4 hidden/disabled patterns"}
 OUTSIDE = ["command trees other than the skeleton", "descriptions with style tags or several paragraphs", "ANSI decorated pages (plain pages only; decoration is C11)"]
@@ -37,7 +37,8 @@ ASSUMPTIONS = ["'a terminal at least as wide as the longest label plus a margin'
                "a page 'lists' an element when its display label occurs in the text: '<name>' for arguments, '-s' and '--long' for options, the name for commands"]
 
 LONG = "This sentence is rather long so that it has to be wrapped on narrow terminals, more than once on the narrowest of them."
-DESCS = [None, "Short text", LONG]
+URL = "See https://example.invalid/" + "x" * 44 + " for details"        # a token longer than the text width of a 40-column page
+DESCS = [None, "Short text", LONG, URL]
 MODES = [Option.NO_VALUE, Option.REQUIRED_VALUE, Option.OPTIONAL_VALUE, Option.REQUIRED_VALUE | Option.MULTI_VALUED]
 
 
@@ -64,7 +65,8 @@ def build(bits, width):
     alpha.add_option("par", "p", pflags, DESCS[d_par], (["pd"] if mode_par == 3 else "pd") if (mode_par != 0 and opt_default) else None)
     alpha.add_argument("first", Argument.REQUIRED, DESCS[d_arg])
     sub1 = alpha.create_sub_command("sub1")
-    sub1.set_description("Sub one")
+    sub1.set_description(DESCS[d_alpha] or "Sub one")          # shown as free text on the parent's page
+    sub1.set_help(URL if d_alpha == 3 else "Help text of sub1")   # DESCRIPTION section of the sub-command's own page
     sub1.set_handler(h)
     if sub1_hidden:
         sub1.hide()
@@ -183,12 +185,12 @@ def _help_case(bits, width):
 def pages(b0: bool, b1: bool, b2: bool, b3: bool, d_alpha: int, d_opt: int, d_arg: int, d_par: int, mode_opt: int, opt_default: bool, mode_par: int,
           arg_multi: bool, arg_default: bool, long_pref: bool) -> bool:
     """
-    pre: 0 <= d_alpha <= 2 and 0 <= d_opt <= 2 and 0 <= d_arg <= 2 and 0 <= d_par <= 2 and 0 <= mode_opt <= 3 and 0 <= mode_par <= 3
+    pre: 0 <= d_alpha <= 3 and 0 <= d_opt <= 3 and 0 <= d_arg <= 3 and 0 <= d_par <= 3 and 0 <= mode_opt <= 3 and 0 <= mode_par <= 3
     pre: d_alpha == PART["d_alpha"] and d_par == PART["d_par"] and mode_par == PART["mode_par"]
     pre: PART.get("hide") is None or (b0 == PART["hide"][0] and b1 == PART["hide"][1] and b2 == PART["hide"][2] and b3 == PART["hide"][3])
     post: _
     """
-    bits = (conc_bool(b0), conc_bool(b1), conc_bool(b2), conc_bool(b3), conc_int(d_alpha, 0, 2), conc_int(d_opt, 0, 2), conc_int(d_arg, 0, 2), conc_int(d_par, 0, 2),
+    bits = (conc_bool(b0), conc_bool(b1), conc_bool(b2), conc_bool(b3), conc_int(d_alpha, 0, 3), conc_int(d_opt, 0, 3), conc_int(d_arg, 0, 3), conc_int(d_par, 0, 3),
             conc_int(mode_opt, 0, 3), conc_bool(opt_default), conc_int(mode_par, 0, 3), conc_bool(arg_multi), conc_bool(arg_default), conc_bool(long_pref))
     return untraced(_help_case, bits, PART["width"])
 
@@ -228,7 +230,7 @@ def conditions(tier):
     t = 120 if quick else 1500
     conds = []
     widths = (40, 64, 120) if quick else (40, 44, 48, 56, 64, 80, 100, 120, 160, 200)
-    combos = [(0, 2, 1), (2, 0, 3)] if quick else [(0, 2, 1), (2, 0, 3), (1, 1, 2), (2, 2, 0), (0, 0, 3), (1, 2, 2)]
+    combos = [(0, 2, 1), (3, 0, 3)] if quick else [(0, 2, 1), (3, 0, 3), (1, 1, 2), (2, 3, 0), (0, 0, 3), (1, 2, 2)]
     for w in widths:
         for d_alpha, d_par, mode_par in combos:
             for hide in ([(False, False, False, False), (True, True, True, True)] if quick else [(False, False, False, False), (True, True, True, True), (True, False, False, True), (False, True, True, False)]):
